@@ -39,7 +39,7 @@ def ClientC (g : Gen) (b : Nat) (tc : Thread) : Prop :=
   | .lkRel => tc.ret = none ∧ tc.qt = idleQt ∧ tc.reply = none ∧ ∀ r ∈ tc.replies, r.marker = none
   | .iiN0 | .iiN1 | .iiN2 => tc.qt = idleQt ∧ tc.reply = none ∧ ∀ r ∈ tc.replies, r.marker = none
   | .nbGet =>
-    tc.g = 0 ∧ tc.qt.prog = .batchKeep (effBatch b) ∧ tc.reply = none ∧ ∀ r ∈ tc.replies, r.marker = none
+    tc.g = 0 ∧ tc.qt.prog = .batchLoop (effBatch b) true ∧ tc.reply = none ∧ ∀ r ∈ tc.replies, r.marker = none
   | .nbTxA | .nbTxR =>
     tc.qt = idleQt ∧ (∀ r ∈ tc.replies, r.marker = none) ∧
     ∃ r, tc.reply = some r ∧ MarkerOK g (tc.yielded ++ r.elems) r.marker
@@ -113,7 +113,7 @@ macro "tz" : tactic => `(tactic| first | rfl | assumption | (simp_all; done))
 theorem quiet_idle : Queue.Quiet idleQt :=
   ⟨⟨by intro k hk; simp [idleQt, Queue.pcKind] at hk, by intro _; rfl⟩, Or.inr rfl, rfl⟩
 
-theorem quiet_fresh (n : Nat) : Queue.Quiet { prog := .batchKeep n, pc := .bAcq } :=
+theorem quiet_fresh (n : Nat) : Queue.Quiet { prog := .batchLoop n true, pc := .bAcq } :=
   ⟨⟨by intro k hk; simp only [Queue.pcKind, Option.some.injEq] at hk; subst hk; rfl, by intro _; rfl⟩,
     Or.inl rfl, rfl⟩
 
